@@ -574,6 +574,14 @@ elif "filter" in CASE:
         if out != text: bad = "str changed"
 else:
     text, cs = CASE["text"], CASE["handler"]
+    if cs.startswith("render:"):
+        # a template with several writes rendered to a charset (also ones whose encoder starts with a signature)
+        cs = cs[len("render:"):]
+        enc = Template("<p>${x}</p>${x}", output_encoding=cs, encoding_errors="htmlentityreplace").render(x=text)
+        back, want = ref_unescape(enc.decode(cs)), "<p>" + text + "</p>" + text
+        print("rendered to", cs, ":", enc); print("decodes to", repr(back), " written", repr(want))
+        print("VIOLATED: the encoded output does not decode back to the rendered text" if back != want else "HOLDS")
+        sys.exit(1 if back != want else 0)
     try:
         text.encode(cs, "strict")
         print("natively encodable in", cs, ": handler not involved"); sys.exit(0)
